@@ -28,7 +28,7 @@ def h_circle(inc, query, m):
     cx, cy = m.real('cx'), m.real('cy')
     r = m.pos('r')
     reg = CirclePixelRegion(PixCoord(cx, cy), r, meta=_meta(inc))
-    for tag, pc_, pts in _queries(m, query):
+    for tag, pc_, pts in _queries(m, query, cx, cy):
         res = reg.contains(pc_)
         _check_shape(m, tag, res, pts, query)
         for k, (px, py) in enumerate(pts):
@@ -36,20 +36,21 @@ def h_circle(inc, query, m):
             _expect(m, f'{tag}[{k}]', rk, O.disk_in(px, py, cx, cy, r), O.disk_out(px, py, cx, cy, r), inc)
 
 
-def _queries(m, query):
+def _queries(m, query, ox=0.0, oy=0.0):
+    """query coordinates; symbolic positions are parametrised as origin + offset (a bijection
+    of the plane, so every position is covered) so that the solver works with differences"""
     from regions import PixCoord
+    dt = object if m.sym else float
+    X = lambda n: ox + m.real(n)
+    Y = lambda n: oy + m.real(n)
     if query == 'scalar':
-        px, py = m.real('px'), m.real('py')
+        px, py = X('px'), Y('py')
         return [('scalar', PixCoord(px, py), [(px, py)])]
-    if query == 'vec2':
-        xs = [m.real('px0'), m.real('px1')]
-        ys = [m.real('py0'), m.real('py1')]
-        return [('vec2', PixCoord(np.array(xs, dtype=object if m.sym else float),
-                                  np.array(ys, dtype=object if m.sym else float)), list(zip(xs, ys)))]
-    if query == 'mat12':
-        xs = [m.real('px0'), m.real('px1')]
-        ys = [m.real('py0'), m.real('py1')]
-        dt = object if m.sym else float
+    if query in ('vec2', 'mat12'):
+        xs = [X('px0'), X('px1')]
+        ys = [Y('py0'), Y('py1')]
+        if query == 'vec2':
+            return [('vec2', PixCoord(np.array(xs, dtype=dt), np.array(ys, dtype=dt)), list(zip(xs, ys)))]
         return [('mat12', PixCoord(np.array([xs], dtype=dt), np.array([ys], dtype=dt)), list(zip(xs, ys)))]
     if query == 'empty':
         return [('empty', PixCoord(np.zeros(0), np.zeros(0)), [])]
@@ -71,26 +72,325 @@ def _check_shape(m, tag, res, pts, query):
 
 def _elem(res, k, query):
     if _SHAPES[query] == ():
+        if isinstance(res, np.ndarray) and res.size == 1:
+            return res.reshape(-1)[0]      # (the shape obligation reports the wrong shape)
         return res
     return np.asarray(res).reshape(-1)[k]
 
 
+
+def _cs(angle_q):
+    return symx.angle_cs(angle_q)
+
+
+def _angle(m, aunit):
+    if aunit == 'default':
+        return None
+    return m.angle('theta', aunit)
+
+
+def h_ellipse(inc, query, aunit, m):
+    from regions import EllipsePixelRegion, PixCoord
+    cx, cy = m.real('cx'), m.real('cy')
+    w, h = m.pos('w'), m.pos('h')
+    ang = _angle(m, aunit)
+    kw = {} if ang is None else {'angle': ang}
+    reg = EllipsePixelRegion(PixCoord(cx, cy), w, h, meta=_meta(inc), **kw)
+    c, s = (1.0, 0.0) if ang is None else _cs(ang)
+    for tag, pc_, pts in _queries(m, query, cx, cy):
+        res = reg.contains(pc_)
+        _check_shape(m, tag, res, pts, query)
+        for k, (px, py) in enumerate(pts):
+            _expect(m, f'{tag}[{k}]', _elem(res, k, query), O.ellipse_in(px, py, cx, cy, w, h, c, s),
+                    O.ellipse_out(px, py, cx, cy, w, h, c, s), inc)
+
+
+def h_rect(inc, query, aunit, m):
+    from regions import RectanglePixelRegion, PixCoord
+    cx, cy = m.real('cx'), m.real('cy')
+    w, h = m.pos('w'), m.pos('h')
+    ang = _angle(m, aunit)
+    kw = {} if ang is None else {'angle': ang}
+    reg = RectanglePixelRegion(PixCoord(cx, cy), w, h, meta=_meta(inc), **kw)
+    c, s = (1.0, 0.0) if ang is None else _cs(ang)
+    for tag, pc_, pts in _queries(m, query, cx, cy):
+        res = reg.contains(pc_)
+        _check_shape(m, tag, res, pts, query)
+        for k, (px, py) in enumerate(pts):
+            _expect(m, f'{tag}[{k}]', _elem(res, k, query), O.rect_in(px, py, cx, cy, w, h, c, s),
+                    O.rect_out(px, py, cx, cy, w, h, c, s), inc)
+
+
+def _poly_shims(m):
+    from vf import kernels
+    kernels.install(m, ('pnpoly',))
+
+
+def _off_boundary(px, py, vx, vy):
+    n = len(vx)
+    conds = []
+    for i in range(n):
+        j = (i + 1) % n
+        cr = O._cross(vx[i], vy[i], vx[j], vy[j], px, py)
+        lox, hix = chk.Min(vx[i], vx[j]), chk.Max(vx[i], vx[j])
+        loy, hiy = chk.Min(vy[i], vy[j]), chk.Max(vy[i], vy[j])
+        conds.append(Or(chk.lt(0, cr), chk.lt(cr, 0), chk.lt(px, lox), chk.lt(hix, px),
+                        chk.lt(py, loy), chk.lt(hiy, py)))
+    return And(*conds)
+
+
+def _parity_up(px, py, vx, vy):
+    """even-odd rule with an UPWARD ray and the half-open straddle rule (exact off the boundary)"""
+    n = len(vx)
+    par = False
+    for i in range(n):
+        j = (i + n - 1) % n
+        strad = chk.Xor(vx[i] > px, vx[j] > px)
+        d = vx[i] - vx[j]
+        num = (vy[j] - py) * d + (vy[i] - vy[j]) * (px - vx[j])   # (y_edge(px) - py) * d
+        above = Or(And(d > 0, num > 0), And(d < 0, num < 0))
+        par = chk.Xor(par, And(strad, above))
+    return par
+
+
+def h_polygon(inc, query, n, m):
+    from regions import PolygonPixelRegion, PixCoord
+    _poly_shims(m)
+    cx, cy = m.real('vx0'), m.real('vy0')
+    vx = [cx] + [cx + m.real(f'ex{i}') for i in range(1, n)]
+    vy = [cy] + [cy + m.real(f'ey{i}') for i in range(1, n)]
+    dt = object if m.sym else float
+    reg = PolygonPixelRegion(PixCoord(np.array(vx, dtype=dt), np.array(vy, dtype=dt)), meta=_meta(inc))
+    included = True if inc is None else bool(inc)
+    for tag, pc_, pts in _queries(m, query, cx, cy):
+        res = reg.contains(pc_)
+        _check_shape(m, tag, res, pts, query)
+        for k, (px, py) in enumerate(pts):
+            rk = _elem(res, k, query)
+            member = rk if included else Not(rk)
+            off = _off_boundary(px, py, vx, vy)
+            m.require(f'{tag}[{k}]: off the boundary => member == even-odd parity (upward ray)',
+                      Implies(off, Iff(member, _parity_up(px, py, vx, vy))))
+            if n == 3:
+                m.require(f'{tag}[{k}]: triangle orientation test, inside',
+                          Implies(O.triangle_in(px, py, vx, vy), member))
+                m.require(f'{tag}[{k}]: triangle orientation test, outside',
+                          Implies(O.triangle_out(px, py, vx, vy), Not(member)))
+
+
+def h_regpoly(inc, query, n, aunit, direct, m):
+    """regular polygon.  Compositional: (1) the vertices are the n points at distance `radius`
+    from the centre, the first one at angle+90 deg, consecutive ones 2 pi/n apart;
+    (2) contains() is the inherited polygon contains() applied to those vertices (method
+    identity), whose correctness for arbitrary vertices is the polygon/n=... cases.
+    For n = 4 the membership is additionally checked directly against the half-plane
+    definition."""
+    from regions import RegularPolygonPixelRegion, PolygonPixelRegion, PixCoord
+    import math
+    _poly_shims(m)
+    cx, cy = m.real('cx'), m.real('cy')
+    rad = m.pos('rad')
+    ang = _angle(m, aunit)
+    kw = {} if ang is None else {'angle': ang}
+    reg = RegularPolygonPixelRegion(PixCoord(cx, cy), n, rad, meta=_meta(inc), **kw)
+    a0 = (ang.to_value(u.rad) if ang is not None else 0.0)
+    if isinstance(a0, np.ndarray):
+        a0 = a0[()]
+    m.require('contains is the polygon implementation applied to self.vertices',
+              type(reg).contains is PolygonPixelRegion.contains and isinstance(reg, PolygonPixelRegion))
+    vx = [x for x in np.asarray(reg.vertices.x, dtype=object if m.sym else float)]
+    vy = [y for y in np.asarray(reg.vertices.y, dtype=object if m.sym else float)]
+    m.require('n vertices', len(vx) == n and len(vy) == n)
+    exact = abs(round(12 / n * 2) - 12 / n * 2) < 1e-12     # 2 pi / n is a multiple of pi/12
+    tol = 0.0 if (exact or not m.sym) and m.sym else 1e-9
+    ca, sa = _cs_const_plus(a0, 0.0)
+    c1, s1 = _cs_const_plus(0.0, 2 * math.pi / n)
+    def close(a, b):
+        if tol == 0.0:
+            return a == b
+        return And(a - b <= tol * rad, b - a <= tol * rad)
+    m.require('vertex 0 is at angle + 90 deg', And(close(vx[0] - cx, -rad * sa), close(vy[0] - cy, rad * ca)))
+    for k in range(n):
+        kn = (k + 1) % n
+        dx, dy = vx[k] - cx, vy[k] - cy
+        m.require(f'vertex {kn} = vertex {k} rotated by 2 pi/n about the centre',
+                  And(close(vx[kn] - cx, c1 * dx - s1 * dy), close(vy[kn] - cy, s1 * dx + c1 * dy)))
+    if not direct:
+        return
+    inr_c, _ = _cs_const_plus(0.0, math.pi / n)           # cos(pi/n)
+    for tag, pc_, pts in _queries(m, query, cx, cy):
+        res = reg.contains(pc_)
+        _check_shape(m, tag, res, pts, query)
+        for k, (px, py) in enumerate(pts):
+            ins, outs = [], []
+            for e in range(n):
+                nc, ns = _cs_const_plus(a0, math.pi / 2 + 2 * math.pi * e / n + math.pi / n)
+                proj = (px - cx) * nc + (py - cy) * ns
+                ins.append(chk.lt(proj, rad * inr_c))
+                outs.append(chk.lt(rad * inr_c, proj))
+            _expect(m, f'{tag}[{k}]', _elem(res, k, query), And(*ins), Or(*outs), inc)
+
+
+def _cs_const_plus(a, const):
+    """(cos, sin) of a + const where a is a symbolic (SymReal, radians) or float angle"""
+    import math
+    if isinstance(a, symx.SymReal):
+        c, s = symx.cs_of((a + const).t)
+        return symx.SymReal(c), symx.SymReal(s)
+    if symx.CTX is not None:
+        c, s = symx.cs_of(symx.lift(a + const))
+        return symx.SymReal(c), symx.SymReal(s)
+    return math.cos(a + const), math.sin(a + const)
+
+
+def h_annulus(kind, inc, query, aunit, m):
+    from regions import (CircleAnnulusPixelRegion, EllipseAnnulusPixelRegion, RectangleAnnulusPixelRegion,
+                         PixCoord)
+    cx, cy = m.real('cx'), m.real('cy')
+    if kind == 'circle':
+        r1, r2 = m.pos('r1'), m.pos('r2')
+        m.assume(r1 < r2)
+        reg = CircleAnnulusPixelRegion(PixCoord(cx, cy), r1, r2, meta=_meta(inc))
+        fin = lambda px, py: And(O.disk_in(px, py, cx, cy, r2), O.disk_out(px, py, cx, cy, r1))
+        fout = lambda px, py: Or(O.disk_out(px, py, cx, cy, r2), O.disk_in(px, py, cx, cy, r1))
+    else:
+        w1, w2, h1, h2 = m.pos('w1'), m.pos('w2'), m.pos('h1'), m.pos('h2')
+        m.assume(w1 < w2)
+        m.assume(h1 < h2)
+        ang = _angle(m, aunit)
+        kw = {} if ang is None else {'angle': ang}
+        c, s = (1.0, 0.0) if ang is None else _cs(ang)
+        cls = EllipseAnnulusPixelRegion if kind == 'ellipse' else RectangleAnnulusPixelRegion
+        reg = cls(PixCoord(cx, cy), w1, w2, h1, h2, meta=_meta(inc), **kw)
+        fi, fo = (O.ellipse_in, O.ellipse_out) if kind == 'ellipse' else (O.rect_in, O.rect_out)
+        fin = lambda px, py: And(fi(px, py, cx, cy, w2, h2, c, s), fo(px, py, cx, cy, w1, h1, c, s))
+        fout = lambda px, py: Or(fo(px, py, cx, cy, w2, h2, c, s), fi(px, py, cx, cy, w1, h1, c, s))
+    for tag, pc_, pts in _queries(m, query, cx, cy):
+        res = reg.contains(pc_)
+        _check_shape(m, tag, res, pts, query)
+        for k, (px, py) in enumerate(pts):
+            _expect(m, f'{tag}[{k}]', _elem(res, k, query), fin(px, py), fout(px, py), inc)
+
+
+def h_empty(kind, inc, query, m):
+    """points, lines and text contain nothing"""
+    from regions import PointPixelRegion, LinePixelRegion, TextPixelRegion, PixCoord
+    cx, cy = m.real('cx'), m.real('cy')
+    if kind == 'point':
+        reg = PointPixelRegion(PixCoord(cx, cy), meta=_meta(inc))
+    elif kind == 'text':
+        reg = TextPixelRegion(PixCoord(cx, cy), 'label', meta=_meta(inc))
+    else:
+        reg = LinePixelRegion(PixCoord(cx, cy), PixCoord(m.real('ex'), m.real('ey')), meta=_meta(inc))
+    included = True if inc is None else bool(inc)
+    for tag, pc_, pts in _queries(m, query, cx, cy):
+        res = reg.contains(pc_)
+        _check_shape(m, tag, res, pts, query)
+        for k, (px, py) in enumerate(pts):
+            rk = _elem(res, k, query)
+            m.require(f'{tag}[{k}]: contains nothing (complement when excluded)',
+                      Iff(rk, not included))
+
+
+def h_in_operator(kind, inc, m):
+    """`coord in region`: scalar only, same answer as contains()"""
+    from regions import CirclePixelRegion, RectanglePixelRegion, PixCoord
+    cx, cy = m.real('cx'), m.real('cy')
+    px, py = m.real('px'), m.real('py')
+    if kind == 'circle':
+        r = m.pos('r')
+        reg = CirclePixelRegion(PixCoord(cx, cy), r, meta=_meta(inc))
+        fin, fout = O.disk_in(px, py, cx, cy, r), O.disk_out(px, py, cx, cy, r)
+    else:
+        w, h = m.pos('w'), m.pos('h')
+        reg = RectanglePixelRegion(PixCoord(cx, cy), w, h, meta=_meta(inc))
+        fin, fout = O.rect_in(px, py, cx, cy, w, h, 1.0, 0.0), O.rect_out(px, py, cx, cy, w, h, 1.0, 0.0)
+    ans = PixCoord(px, py) in reg
+    m.require('in-operator yields a plain bool', isinstance(ans, bool))
+    _expect(m, 'in', ans, fin, fout, inc)
+    dt = object if m.sym else float
+    try:
+        PixCoord(np.array([px, px], dtype=dt), np.array([py, py], dtype=dt)) in reg
+        m.require('in-operator rejects array coordinates', False)
+    except ValueError:
+        m.require('in-operator rejects array coordinates', True)
+
 def harnesses(tier):
+    P = functools.partial
     hs = []
+    q = tier == 'quick'
+    queries = ['scalar', 'vec2', 'empty'] if q else ['scalar', 'vec2', 'mat12', 'empty', 'intscalar']
+    aunits = ['deg', 'rad'] if q else ['default', 'deg', 'rad', 'arcmin', 'arcsec']
     for iname, inc in INCLUDES:
-        for q in (['scalar', 'vec2', 'empty'] if tier == 'quick' else ['scalar', 'vec2', 'mat12', 'empty', 'intscalar']):
-            hs.append((f'circle/include={iname}/query={q}', functools.partial(h_circle, inc, q)))
+        for qy in queries:
+            hs.append((f'circle/include={iname}/query={qy}', P(h_circle, inc, qy)))
+            hs.append((f'point/include={iname}/query={qy}', P(h_empty, 'point', inc, qy)))
+            hs.append((f'line/include={iname}/query={qy}', P(h_empty, 'line', inc, qy)))
+            hs.append((f'text/include={iname}/query={qy}', P(h_empty, 'text', inc, qy)))
+            hs.append((f'annulus-circle/include={iname}/query={qy}', P(h_annulus, 'circle', inc, qy, 'deg')))
+            for au in aunits:
+                if q and (au == 'rad') != (qy == 'scalar') and iname not in ('absent', 'False'):
+                    continue
+                hs.append((f'ellipse/include={iname}/query={qy}/angle={au}', P(h_ellipse, inc, qy, au)))
+                hs.append((f'rectangle/include={iname}/query={qy}/angle={au}', P(h_rect, inc, qy, au)))
+                if qy in ('scalar', 'vec2'):
+                    hs.append((f'annulus-ellipse/include={iname}/query={qy}/angle={au}',
+                               P(h_annulus, 'ellipse', inc, qy, au)))
+                    hs.append((f'annulus-rectangle/include={iname}/query={qy}/angle={au}',
+                               P(h_annulus, 'rectangle', inc, qy, au)))
+        hs.append((f'in-operator/circle/include={iname}', P(h_in_operator, 'circle', inc)))
+        hs.append((f'in-operator/rectangle/include={iname}', P(h_in_operator, 'rectangle', inc)))
+    polyn = [3, 4, 5] if q else [3, 4, 5, 6, 7, 8]
+    for n in polyn:
+        for iname, inc in (INCLUDES if n <= 4 else INCLUDES[:1] + INCLUDES[2:3]):
+            for qy in (['scalar', 'vec2', 'empty'] if n <= 4 else ['scalar']):
+                hs.append((f'polygon/n={n}/include={iname}/query={qy}', P(h_polygon, inc, qy, n)))
+    for n in ([3, 4] if q else [3, 4, 5, 6, 8, 12]):
+        for iname, inc in INCLUDES[:1] + INCLUDES[2:3]:
+            for au in (['deg'] if q else ['default', 'deg', 'rad']):
+                hs.append((f'regular-polygon/n={n}/include={iname}/query=scalar/angle={au}',
+                           P(h_regpoly, inc, 'scalar', n, au, n == 4)))
     return hs
 
 
 def cases(tier, seed):
-    return [(name, functools.partial(chk.run_case, 'C01', name, h)) for name, h in harnesses(tier)]
+    from vf import pyxsym
+    out = [(name, functools.partial(chk.run_case, 'C01', name, h)) for name, h in harnesses(tier)]
+    out.append(('translation-validation/pnpoly', functools.partial(chk.tv_case, 'C01', ('pnpoly',), seed)))
+    return out
 
 
 META = {
-    'functions_encoded': ['regions.shapes.circle.CirclePixelRegion.contains'],
-    'bounds': {'quick': {}, 'thorough': {}},
-    'outside_claim': ['positions within floating-point rounding of the boundary (reals model)'],
-    'stubs': [],
-    'assumptions': ['floats are interpreted as the real numbers they denote'],
+    'functions_encoded': [
+        'regions.shapes.circle.CirclePixelRegion.contains', 'regions.shapes.ellipse.EllipsePixelRegion.contains',
+        'regions.shapes.rectangle.RectanglePixelRegion.contains', 'regions.shapes.polygon.PolygonPixelRegion.contains',
+        'regions.shapes.polygon.RegularPolygonPixelRegion.__init__/_calc_vertices/contains',
+        'regions.shapes.annulus.AnnulusPixelRegion.contains (+ _compound_region, _inner_region, _outer_region)',
+        'regions.core.compound.CompoundPixelRegion.contains', 'regions.shapes.point.PointPixelRegion.contains',
+        'regions.shapes.line.LinePixelRegion.contains', 'regions.shapes.text.TextPixelRegion (inherited contains)',
+        'regions.core.core.PixelRegion.__contains__', 'regions.core.pixcoord.PixCoord.__init__/separation/_validate',
+        'regions/_geometry/pnpoly.pyx: points_in_polygon, point_in_polygon (interpreted from source)',
+        'regions.core.attributes descriptors (validation on construction)'],
+    'bounds': {
+        'quick': {'polygon_vertices': '3..5', 'regular_polygon_n': [3, 4], 'query_containers': ['scalar', '(2,)', '(0,)'],
+                  'include_flags': ['absent', True, False, 1, 0], 'angle_units': ['deg', 'rad'],
+                  'continuous_parameters': 'unbounded reals (centre, sizes > 0, angle as a point on the unit circle, query position)'},
+        'thorough': {'polygon_vertices': '3..8', 'regular_polygon_n': [3, 4, 6],
+                     'query_containers': ['scalar', '(2,)', '(1,2)', '(0,)', 'int scalar'],
+                     'include_flags': ['absent', True, False, 1, 0],
+                     'angle_units': ['default', 'deg', 'rad', 'arcmin', 'arcsec'],
+                     'continuous_parameters': 'unbounded reals'}},
+    'outside_claim': ['positions within floating-point rounding of the boundary (floats are modelled as reals)',
+                      'query arrays of rank > 2 and more than 2 symbolic elements',
+                      'polygons with more vertices than the bound; regular polygons whose angles are not multiples of pi/12',
+                      'sizes spanning 9 orders of magnitude are covered as unbounded reals, not as floats'],
+    'stubs': ['regions.shapes.polygon.np -> facade keeping object dtype for symbolic payloads',
+              'regions.shapes.polygon.points_in_polygon -> pyxsym interpretation of pnpoly.pyx (translation-validated '
+              'against the compiled extension in this run)',
+              'astropy.units.Quantity.__new__: default dtype becomes object iff the payload is symbolic'],
+    'assumptions': ['floats are interpreted as the real numbers they denote',
+                    'an angle is represented by a (cos, sin) pair on the unit circle; deg/rad/arcmin/arcsec conversion '
+                    'factors are snapped to pi/180 etc.',
+                    'the compiled pnpoly extension agrees with pnpoly.pyx (checked on the seeded vectors of the '
+                    'translation-validation case)'],
 }
